@@ -171,7 +171,7 @@ def end_to_end(c, tier):
     STR = {"cstr_in", "tdstr_in", "str_cref", "str_ref_inout", "str_ref_out"}
 
     def stringy(x):
-        return x["result"] in ("cstr", "str_cref") or any(p["kind"] in STR for p in x["params"])
+        return x["result"] in ("cstr", "str_cref", "char1", "char3") or any(p["kind"] in STR for p in x["params"])
     configs = []
     for tag, opts in (("str", {}), ("str-cfi", {"F_CFI": True})):
         lib = libgen.without_cfi_conflict(libgen.wide_library(**opts))
